@@ -94,6 +94,7 @@ pub fn eval_one(profile: &str, ast: &Node, flags: Flags, hays: &[Hay], run: &Run
     let pat = print::print(ast);
     crate::subject::set_case_desc(format!("/{}/{} (C06/C15)", print::show(&pat), flags.to_string()));
     let mut digest: u64 = 0;
+    let mut undecided = false;
     let focus = FOCUS.load(std::sync::atomic::Ordering::Relaxed);
     let focused = focus != 0 && focus == h64(&(profile, &pat, flags));
     if focused {
@@ -151,6 +152,9 @@ pub fn eval_one(profile: &str, ast: &Node, flags: Flags, hays: &[Hay], run: &Run
                         }
                         Outcome::Fuel => {
                             st.add("undecided_fuel", 1);
+                            // a build without the step hook answers this case, a build with it does not: the
+                            // pattern's digest is not comparable across variants
+                            undecided = true;
                         }
                         Outcome::Panic(m) => {
                             let where_ = m.rsplit(" at ").next().unwrap_or("").to_string();
@@ -163,8 +167,11 @@ pub fn eval_one(profile: &str, ast: &Node, flags: Flags, hays: &[Hay], run: &Run
             }
         }
     }
-    acc.digests.push((h64(&(profile, &pat, flags)), digest));
+    acc.digests.push((h64(&(profile, &pat, flags)), if undecided { UNDECIDED } else { digest }));
 }
+
+/// Digest value of a pattern for which some case ran out of fuel in this build (excluded from the comparison).
+pub const UNDECIDED: u64 = u64::MAX;
 
 const PROFILES: [(&str, usize, usize); 10] = [("dotcap", 4, 6), ("utf8", 3, 4), ("onechar", 3, 3), ("look", 3, 4), ("lit", 2, 3), ("icase", 2, 3), ("core", 4, 5), ("vset", 2, 3), ("icaseback", 6, 7), ("fail", 8, 9)];
 
@@ -365,7 +372,9 @@ pub fn c06(run: &mut Run, worker_prefixes: &[String]) -> Stats {
             match mine.get(k) {
                 Some(m) => {
                     compared += 1;
-                    if m != d {
+                    if *m == UNDECIDED || *d == UNDECIDED {
+                        st.add("patterns_not_compared_fuel", 1);
+                    } else if m != d {
                         differing += 1;
                     }
                 }
